@@ -11,7 +11,9 @@ PROP = {
         "pending_dups_exact", "resume_newest_with_dups"]],
     "pre": [facts.make_step(["subscribe.feed.calls", "coalesce.Insert.blocking", "subscribe.send.aclBeforeSend",
                              "subscribe.timer.stoppedAtCreation", "subscribe.sender.loop"])],
-    "components": [su_component("c08", 300, 3000)],
+    "components": [su_component("c08", 300, 3000),
+                   # coalesce.go is anchored here too: the queue under its window hooks (C11 is its own property)
+                   {"c": "co", "quick": {"n": 1500}, "thorough": {"n": 8000, "seeds": 2}}],
     "monitor": "spec", "level": "proof",
     "trusted_base": SUB_TB + LTS_TB, "assumptions": SUB_ASSUMPTIONS,
     "manifest": {
